@@ -346,6 +346,13 @@ func (state inSession) processReject(session *session, msg *Message, rej Message
 			return handleStateError(session, err)
 		}
 
+		// The rejected message consumed its sequence number only if it carried the expected one.
+		// A message that was rejected before its number was looked at (missing or unreadable
+		// SendingTime or MsgSeqNum) must not move the expected number past a message still to come.
+		if seqNum, err := msg.Header.GetInt(tagMsgSeqNum); err != nil || seqNum != session.store.NextTargetMsgSeqNum() {
+			return state
+		}
+
 		if err := session.store.IncrNextTargetMsgSeqNum(); err != nil {
 			return handleStateError(session, err)
 		}
